@@ -153,3 +153,216 @@ Definition check_ccase (c : ccase) : list nat :=
           chk 7 (list_eqb Z.eqb (map (split_h M) (seq 0 lm)) sh)
       end
   end.
+
+(* ====================================================================================== *)
+(* ================= Part 2: text level ================================================= *)
+(* A file is the line "# Generated <timestamp>" followed by the lines below, joined by newlines
+   (export writes "\n" before every line but the first, none at the end).  readlines() keeps the
+   newline at the end of a line; split() / float() ignore it, so lines are modelled without it.
+   int() and float() are modelled on the formats export produces (decimal digits; optional '-',
+   digits, '.', two digits, surrounding blanks); any other text is a ValueError in the model. *)
+From Coq Require Import String Ascii DecimalString DecimalNat DecimalN.
+
+(* ---------- printing ---------- *)
+(* '{i:d}' *)
+Definition print_nat (n : nat) : string := NilEmpty.string_of_uint (Nat.to_uint n).
+Definition print_N (n : N) : string := NilEmpty.string_of_uint (N.to_uint n).
+Definition digit_char (k : nat) : ascii :=
+  nth k ["0"; "1"; "2"; "3"; "4"; "5"; "6"; "7"; "8"; "9"]%char "0"%char.
+
+(* sign slot ('-' for a negative value, else ' ' under the space flag, else nothing), integer part,
+   '.', two digits;  z >= 0 is the magnitude in hundredths *)
+Definition print_dec2 (neg space : bool) (z : Z) : string :=
+  ((if neg then "-" else if space then " " else "") ++
+   print_N (Z.to_N (z / 100)) ++ "." ++
+   String (digit_char (Z.to_nat ((z mod 100) / 10))) (String (digit_char (Z.to_nat (z mod 10))) ""))%string.
+
+(* '{value: .2f}' (space = true) and '{constant:.2f}' (space = false): the sign is that of the value
+   (so a small negative value prints as -0.00), the digits are those of the rounded magnitude *)
+Definition fmt2 (space : bool) (q : Q) : string := print_dec2 (Qnum q <? 0) space (Z.abs (round2 q)).
+
+Definition const_line (q : Q) : string := ("# Constant term of objective = " ++ fmt2 false q)%string.
+Definition record_line (i j : nat) (q : Q) : string :=
+  (print_nat i ++ " " ++ print_nat j ++ " " ++ fmt2 true q)%string.
+
+(* the lines of the file after the timestamp line *)
+Definition export_text (p : problem) : list string :=
+  (const_line (p_const p) :: "# Diagonal terms"%string ::
+   flat_map (fun i => if is_zero (dvec p i) then [] else [record_line i i (dvec p i)]) (seq 0 (p_n p)) ++
+   "# Off-Diagonal terms"%string ::
+   flat_map (fun t => match t with (r, c, v) => if (r =? c)%nat then [] else [record_line r c v] end)
+            (find_entries (p_n p) (p_mat p)))%list.
+
+(* ---------- parsing ---------- *)
+(* ASCII white space as str.split() / float() / int() see it: codes 9-13, 28-31, 32 *)
+Definition is_ws (c : ascii) : bool :=
+  let k := nat_of_ascii c in
+  ((9 <=? k) && (k <=? 13) || (28 <=? k) && (k <=? 32))%nat.
+
+(* line.split() *)
+Fixpoint split_ws_aux (cur : string) (s : string) : list string :=
+  match s with
+  | EmptyString => match cur with EmptyString => [] | _ => [cur] end
+  | String c s' =>
+      if is_ws c then (match cur with EmptyString => [] | _ => [cur] end ++ split_ws_aux EmptyString s')%list
+      else split_ws_aux (cur ++ String c EmptyString)%string s'
+  end.
+Definition split_ws (s : string) : list string := split_ws_aux EmptyString s.
+
+(* line.split(c) for a single character c: empty fields are kept *)
+Fixpoint split_on_aux (c : ascii) (cur : string) (s : string) : list string :=
+  match s with
+  | EmptyString => [cur]
+  | String a s' =>
+      if Ascii.eqb a c then cur :: split_on_aux c EmptyString s'
+      else split_on_aux c (cur ++ String a EmptyString)%string s'
+  end.
+Definition split_on (c : ascii) (s : string) : list string := split_on_aux c EmptyString s.
+
+Fixpoint lstrip (s : string) : string :=
+  match s with
+  | EmptyString => EmptyString
+  | String c s' => if is_ws c then lstrip s' else s
+  end.
+Fixpoint all_ws (s : string) : bool :=
+  match s with EmptyString => true | String c s' => is_ws c && all_ws s' end.
+
+(* int(text) on a string of decimal digits *)
+Definition parse_nat (s : string) : option nat :=
+  match s with
+  | EmptyString => None
+  | _ => option_map Nat.of_uint (NilEmpty.uint_of_string s)
+  end.
+Definition parse_N (s : string) : option N :=
+  match s with
+  | EmptyString => None
+  | _ => option_map N.of_uint (NilEmpty.uint_of_string s)
+  end.
+Definition digit_val (c : ascii) : option Z :=
+  let k := nat_of_ascii c in
+  if ((48 <=? k) && (k <=? 57))%nat then Some (Z.of_nat (k - 48)) else None.
+
+(* the text before the first '.', and the text after it *)
+Fixpoint split_at_dot (cur : string) (s : string) : option (string * string) :=
+  match s with
+  | EmptyString => None
+  | String c s' => if Ascii.eqb c "."%char then Some (cur, s') else split_at_dot (cur ++ String c EmptyString)%string s'
+  end.
+
+(* float(text) on  blanks ['-'] digits '.' digit digit blanks ;  the value in hundredths *)
+Definition parse_dec2 (s : string) : option Z :=
+  let s1 := lstrip s in
+  let ns := match s1 with
+            | String c r => if Ascii.eqb c "-"%char then (true, r) else (false, s1)
+            | EmptyString => (false, s1)
+            end in
+  match split_at_dot EmptyString (snd ns) with
+  | Some (ip, String d1 (String d2 rest)) =>
+      match parse_N ip, digit_val d1, digit_val d2 with
+      | Some a, Some x, Some y =>
+          if all_ws rest
+          then let z := 100 * Z.of_N a + 10 * x + y in Some (if fst ns then - z else z)
+          else None
+      | _, _, _ => None
+      end
+  | _ => None
+  end.
+
+(* ---------- load_matrix on lines ---------- *)
+Record lstate := mkL { l_entries : list entry; l_const : Z; l_matlen : option nat }.
+
+Definition int_field (l : list string) (k : nat) : result nat :=
+  match nth_error l k with
+  | None => Err IndexError
+  | Some s => match parse_nat s with Some v => Ok v | None => Err ValueError end
+  end.
+Definition float_field (l : list string) (k : nat) : result Z :=
+  match nth_error l k with
+  | None => Err IndexError
+  | Some s => match parse_dec2 s with Some v => Ok v | None => Err ValueError end
+  end.
+
+(* the body of `for line in file_lines:` *)
+Definition load_line (cc : ascii) (st : lstate) (line : string) : result lstate :=
+  match line with
+  | EmptyString => Err IndexError                                   (* line[0] *)
+  | String c0 _ =>
+      if Ascii.eqb c0 cc || Ascii.eqb c0 "#"%char then
+        (* comment: the constant follows an equal sign if there is one *)
+        match split_on "="%char line with
+        | _ :: f :: _ =>
+            match parse_dec2 f with
+            | Some z => Ok (mkL (l_entries st) z (l_matlen st))
+            | None => Err ValueError
+            end
+        | _ => Ok st
+        end
+      else if Ascii.eqb c0 "p"%char then
+        (* sentinel line: p qubo 0 maxDiagonals nDiagonals nElements *)
+        let contents := split_ws line in
+        match int_field contents 4 with
+        | Err e => Err e
+        | Ok a => match int_field contents 5 with
+                  | Err e => Err e
+                  | Ok b => Ok (mkL (l_entries st) (l_const st) (Some (a + b)%nat))
+                  end
+        end
+      else
+        let contents := split_ws line in
+        if (List.length contents =? 2)%nat then
+          match int_field contents 1 with
+          | Err e => Err e
+          | Ok a => Ok (mkL (l_entries st) (l_const st) (Some a))
+          end
+        else
+          match int_field contents 0 with
+          | Err e => Err e
+          | Ok r => match int_field contents 1 with
+                    | Err e => Err e
+                    | Ok c => match float_field contents 2 with
+                              | Err e => Err e
+                              | Ok v => Ok (mkL (l_entries st ++ [(r, c, v)])%list (l_const st) (l_matlen st))
+                              end
+                    end
+          end
+  end.
+
+Fixpoint load_lines (cc : ascii) (st : lstate) (lines : list string) : result lstate :=
+  match lines with
+  | [] => Ok st
+  | l :: rest => match load_line cc st l with
+                 | Err e => Err e
+                 | Ok st' => load_lines cc st' rest
+                 end
+  end.
+
+(* load_matrix(filename, comment_char) *)
+Definition load_text (cc : ascii) (lines : list string) : result loaded :=
+  match load_lines cc (mkL [] 0 None) lines with
+  | Err e => Err e
+  | Ok st =>
+      match l_matlen st with
+      | Some k => if (List.length (l_entries st) =? k)%nat
+                  then Ok (load_entries (l_const st, l_entries st))
+                  else Err AssertionError          (* "Input matrix length discrepancy" *)
+      | None => Ok (load_entries (l_const st, l_entries st))
+      end
+  end.
+
+(* load_ising_matrix uses '#', load_qubo_matrix 'c' *)
+Definition comment_char (ising : bool) : ascii := if ising then "#"%char else "c"%char.
+
+(* ---------- correspondence, text level ---------- *)
+(* the lines of the written file after the timestamp line, and the loader's result on the file *)
+Definition tcase := (bool * nat * list (list Q) * list Q * Q * list string * (nat * list (list Z) * Z))%type.
+
+Definition check_tcase (c : tcase) : list nat :=
+  match c with
+  | (ising, n, rows, h, k, lines, (lm, lM, lk)) =>
+      let p := problem_of ising n rows h k in
+      chk 1 (list_eqb String.eqb (export_text p) lines) ++
+      match load_text (comment_char ising) ("# Generated 2000-01-01 00:00:00.000000"%string :: lines) with
+      | Ok (m, M, k') => chk 2 (Nat.eqb m lm && zrows_eqb (dense_of lm M) lM && (k' =? lk))
+      | Err _ => [2%nat]
+      end
+  end.
